@@ -345,6 +345,66 @@ def VIOL_KEY(cfg):
 T, P, EO, EF = ['T'], ['P'], ['E', 'ok'], ['E', 'fail']
 
 
+def gen_trees(rng, count):
+    """random condition trees: depth <= 3, 4-5 leaf slots, all operators, failing / shared operands now and then"""
+    out = []
+    while len(out) < count:
+        nleaf = [0]
+        budget = rng.choice([4, 5])
+
+        def mk(depth):
+            if depth == 3 or (depth > 0 and rng.random() < 0.45) or nleaf[0] >= budget - 1:
+                nleaf[0] += 1
+                r = rng.random()
+                if r < 0.12 and nleaf[0] > 1 and not fails[0]:
+                    return ['R', rng.randrange(nleaf[0] - 1)], True
+                if r < 0.24 and not shared[0]:
+                    fails[0] = True
+                    return list(EF), False
+                return list(rng.choice([T, T, T, EO, P])), False
+            op = rng.choice(['all', 'any', 'and', 'or'])
+            m = 2 if op in ('and', 'or') else rng.choice([2, 2, 3])
+            kids = []
+            for _ in range(m):
+                k, sh = mk(depth + 1)
+                if sh:
+                    shared[0] = True
+                kids.append(k)
+            return [op] + kids, False
+
+        fails, shared = [False], [False]
+        t, _ = mk(0)
+        # references count leaves in creation order: renumber is implicit (['R', k] = k-th non-reference leaf so far)
+        nl = str(t).count("'T'") + str(t).count("'E'") + str(t).count("'P'")
+        refs_ok = all(k < nl for k in _refs(t))
+        if t[0] in ('all', 'any', 'and', 'or') and 3 <= nleaf[0] <= budget and refs_ok and not (fails[0] and shared[0]) and t not in out:
+            if _refs_valid(t):
+                out.append(t)
+    return out
+
+
+def _refs(t):
+    if t[0] == 'R':
+        return [t[1]]
+    if t[0] in ('all', 'any', 'and', 'or'):
+        return [k for c in t[1:] for k in _refs(c)]
+    return []
+
+
+def _refs_valid(t):
+    """every ['R', k] must point at a leaf created before it (depth-first order, references do not count)"""
+    seen = [0]
+
+    def walk(x):
+        if x[0] in ('all', 'any', 'and', 'or'):
+            return all(walk(c) for c in x[1:])
+        if x[0] == 'R':
+            return x[1] < seen[0]
+        seen[0] += 1
+        return True
+    return walk(t)
+
+
 def jobs(tier, seed):
     rng = random.Random(9000 + int(seed))
     trees = [
@@ -369,6 +429,8 @@ def jobs(tier, seed):
                   ['any', T, T, T, T], ['all', ['all', T, T], ['all', T, T]], ['and', ['or', T, EF], ['or', EF, T]],
                   ['any', ['any', ['any', T, EF], T], T], ['all', ['all', ['all', T, T], EF], T],
                   ['or', ['and', P, T], ['and', EO, T]], ['all', ['any', T, T, T], T], ['any', ['all', T, T, T], EF]]
+    if tier != 'quick':
+        trees += gen_trees(rng, 40)
     js = []
     for ti, tr in enumerate(trees):
         js.append({'harness': 'cond', 'cfg': {'tree': tr, 'sorts': ('int', 'real', 'mixed')[ti % 3]},
@@ -388,7 +450,7 @@ META = {
                         'mixed-refused', 'empty', 'shared-operand'],
     'bounds': {'quick': '20 condition trees (AllOf, AnyOf, &, |; depth <= 2, <= 3 leaves) over timeouts, shared events succeeded or '
                         'failed by helpers, child processes, one event in several operand slots; construction instant, completion instants and values symbolic',
-               'thorough': '27 trees, depth <= 3, <= 4 leaves'},
+               'thorough': 'these plus 25 fixed and 40 seed-generated trees, depth <= 3, <= 5 operand slots'},
     'assumptions': ['operands already processed at construction are counted in operand order',
                     'the per-node oracle reads the order in which the kernel processed the node\'s direct operands'],
     'stubs': [],
